@@ -127,6 +127,9 @@ def run(ck):
         paths = _ev(ck, lambda it, s: matfuncs(it, s, ("Bv", "nv"), ("Bp", "nv"), True))
         for p in returning(paths, "matrix functions"):
             shape_err_verdict(ck, "C02.R2", "expand=True", paths)
+            _mx = batch_reductions(p, ("Bv", "Bp", "B"))
+            ck.check(not _mx, "C02.R2", "expand=True:each matrix element depends on its own pair of rows only", _mx[0][0] if _mx else rho_site,
+                     "%s over the axes %s, which include a batch axis: elements of different rows / columns are mixed" % ((_mx[0][1], _mx[0][2]) if _mx else ("", "")))
             for nm, want in shapes_expected.items():
                 got = p.value[nm].shape
                 site = _fsite(prog, nm)
@@ -141,6 +144,9 @@ def run(ck):
             paths = _ev(ck, lambda it, s: matfuncs(it, s, sv, svp, expand))
             for p in returning(paths, cname):
                 shape_err_verdict(ck, "C02.R4", cname, paths)
+                _mx = batch_reductions(p, ("Bv", "Bp", "B"))
+                ck.check(not _mx, "C02.R4", cname + ":each element depends on its own row only", _mx[0][0] if _mx else rho_site,
+                         "%s over the axes %s, which include the batch axis: rows of a batch are mixed" % ((_mx[0][1], _mx[0][2]) if _mx else ("", "")))
                 for nm, w in shapes_expected.items():
                     got = p.value[nm].shape
                     want = tuple(x for x in w if x not in ("Bv", "Bp", "P"))
